@@ -196,10 +196,16 @@ def main():
         elif prior:
             args.append("--force-create")
         seed_found = []
+        stdin_data = None
+        stdin_i = rnd.randrange(len(seeds)) if seeds and rnd.random() < 0.4 else -1
         for i, sb in enumerate(seeds):
-            sp = os.path.join(dd, "seed%d.bin" % i)
-            open(sp, "wb").write(sb)
-            args += ["--seed", sp]
+            if i == stdin_i:
+                args += ["--seed", "-"]       # this seed arrives on stdin
+                stdin_data = sb
+            else:
+                sp = os.path.join(dd, "seed%d.bin" % i)
+                open(sp, "wb").write(sb)
+                args += ["--seed", sp]
             seed_found += [h for (h, o, s) in ctx.found(sb)]
         args += ["http://127.0.0.1:%d/a%d_%d.cba" % (port, a.shard, n) if transport == "http" else ap_, out, "--buffered-chunks", str(rnd.choice([1, 2, 8]))]
         run_env = dict(ctx.env)
@@ -212,7 +218,7 @@ def main():
                    "arch": [[ids[c["hash"]], d["data_off"] + c["aoff"], c["asz"]] for c in d["descs"]],
                    "out_found": [[ids[h], o, s] for (h, o, s) in out_found if h in ids],
                    "seed_found": sorted({ids[h] for h in seed_found if h in ids}),
-                   "layout": {k: sc.get(k) for k in ("src", "prior", "seeds")}, "nseeds": len(seeds)}
+                   "layout": {k: sc.get(k) for k in ("src", "prior", "seeds")}, "nseeds": len(seeds), "stdin_seed": stdin_i}
 
         def run_once(fault=None):
             if prior or kind != "new":
@@ -226,7 +232,7 @@ def main():
             else:
                 cmd = ["strace", "-f", "-y", "-qq", "-s", "0", "-o", st, "-e", "trace=openat,open,lseek,read,write,pread64,pwrite64,ftruncate"] + args
             try:
-                p = subprocess.run(cmd, env=e, cwd=dd, stdin=subprocess.DEVNULL, stdout=subprocess.PIPE, stderr=subprocess.PIPE, timeout=120)
+                p = subprocess.run(cmd, env=e, cwd=dd, input=stdin_data if stdin_data is not None else b"", stdout=subprocess.PIPE, stderr=subprocess.PIPE, timeout=120)
                 code = p.returncode
                 msg = (p.stderr.decode(errors="replace").strip().splitlines() or [""])[-1][:160]
             except subprocess.TimeoutExpired:
@@ -237,19 +243,42 @@ def main():
                 sys.exit(2)
             if os.path.exists(st):
                 os.unlink(st)
-            http = [[x[1], x[2]] for x in RangeHandler.log if x[0].endswith("a%d_%d.cba" % (a.shard, n))]
+            http = [[x[1], x[2], x[3]] for x in RangeHandler.log if x[0].endswith("a%d_%d.cba" % (a.shard, n))]
             return code, msg, calls, http
 
         def after_ev(code, msg):
             data = open(out, "rb").read() if os.path.exists(out) else b""
             return {"ev": "after", "exit": code, "msg": msg, "out_len": len(data), "out_eq_src": data == source, "out_prefix_eq_src": data[:len(source)] == source and len(data) >= len(source)}
 
-        if a.mode == "plain":
+        if a.mode == "httpfaults":
+            # the CLI's retry wiring: --http-retry-count r against a server that cuts the first chunk-data transfers after k bytes
+            if prior and kind != "new":
+                open(out, "wb").write(prior)
+            budget = rnd.choice([0, 1, 2, 3])
+            ncuts = rnd.choice([1, 2, 3])
+            cuts = [rnd.choice([0, 1, 7, 100, 1000]) for _ in range(ncuts)]
+            key = "/a%d_%d.cba" % (a.shard, n)
+            url = "http://127.0.0.1:%d%s" % (port, key)
+            saved = list(args)
+            for i_, x_ in enumerate(args):
+                if x_ == ap_:
+                    args[i_] = url
+            args += ["--http-retry-count", str(budget), "--http-retry-delay", "0"]
+            RangeHandler.plans[key] = {"hdr": d["header_len"], "cuts": cuts, "i": 0}
+            code, msg, calls, http = run_once()
+            RangeHandler.plans.pop(key, None)
+            args[:] = saved
+            nrun += 1
+            ev0 = dict(scen_ev, transport="http", httpfault={"budget": budget, "cuts": cuts})
+            evs = [ev0] + [e for e in io_events(calls, out, ap_) if e["role"] == "output"] + [{"ev": "http", "first": x[0], "last": x[1], "cut": x[2]} for x in http] + [after_ev(code, msg), {"ev": "done"}]
+            for e in evs:
+                w.write(json.dumps(e) + "\n")
+        elif a.mode == "plain":
             if prior and kind != "new":
                 open(out, "wb").write(prior)
             code, msg, calls, http = run_once()
             nrun += 1
-            evs = [scen_ev] + io_events(calls, out, ap_) + [{"ev": "http", "first": x[0], "last": x[1]} for x in http] + [after_ev(code, msg), {"ev": "done"}]
+            evs = [scen_ev] + io_events(calls, out, ap_) + [{"ev": "http", "first": x[0], "last": x[1], "cut": x[2]} for x in http] + [after_ev(code, msg), {"ev": "done"}]
             for e in evs:
                 w.write(json.dumps(e) + "\n")
         else:
@@ -291,7 +320,7 @@ def main():
                 args[:] = saved
                 ev0 = dict(scen_ev, fault=fc, writes=W, out_found=[[ids[h], o, s] for (h, o, s) in found2 if h in ids], inplace=True, first_exit=code, first_msg=msg,
                            prior_len=len(mid), kind="regular" if kind == "new" else kind)
-                evs = [ev0] + io_events(calls2, out, ap_) + [{"ev": "http", "first": x[0], "last": x[1]} for x in http2] + [after_ev(code2, msg2), {"ev": "done"}]
+                evs = [ev0] + io_events(calls2, out, ap_) + [{"ev": "http", "first": x[0], "last": x[1], "cut": x[2]} for x in http2] + [after_ev(code2, msg2), {"ev": "done"}]
                 for e in evs:
                     w.write(json.dumps(e) + "\n")
         shutil.rmtree(dd, ignore_errors=True)
